@@ -123,6 +123,7 @@ def sContentLength : Bytes := [99,111,110,116,101,110,116,45,108,101,110,103,116
 def sContentEncoding : Bytes := [99,111,110,116,101,110,116,45,101,110,99,111,100,105,110,103]
 def sChunked : Bytes := [99,104,117,110,107,101,100]
 def sHttpSlash : Bytes := [72,84,84,80,47]
+def sHttp11 : Bytes := [72,84,84,80,47,49,46,49]
 
 inductive HttpFraming where
   | chunked | length (n : Nat) | untilClose
@@ -157,7 +158,10 @@ def deHttp (wire : Bytes) : Option (Bytes × Bytes) :=
   match splitHead wire with
   | none => none
   | some (head, rest) =>
-    if head.take 5 ≠ sHttpSlash then none else deBody (httpFraming head) head rest
+    if head.take 5 ≠ sHttpSlash then none
+    -- the chunked coding does not exist in HTTP/1.0: such a client would take the chunk framing for body bytes
+    else if httpFraming head = some .chunked ∧ head.take 8 ≠ sHttp11 then none
+    else deBody (httpFraming head) head rest
 
 /-! ## FastCGI records (spec 3.3)
 
